@@ -34,11 +34,33 @@ func lockID(v Value) *Term {
 	return Add(Mul(lv.P, C64(4096)), C64(h%4096))
 }
 
+// freshLockFact: a mutex inside an object allocated after the function under verification was entered
+// cannot be among the mutexes held at entry (quantifier-free instance for the lock at hand)
+func (ex *Exec) freshLockFact(pc *Term, v Value) {
+	tf := ex.topFrame
+	if tf == nil || tf.entry == nil || tf.entryNext == nil {
+		return
+	}
+	p, ok := v.(VPtr)
+	if !ok {
+		return
+	}
+	base := p.T
+	if p.LV != nil {
+		base = p.LV.P
+	}
+	if base == nil {
+		return
+	}
+	ex.assumeAlways(Implies(ULe(tf.entryNext, base), Not(Select(tf.entry.comp(compHeld, heldSort), lockID(v)))))
+}
+
 func init() {
 	compSorts[compHeld] = heldSort
 	regExtern("(*sync.Mutex).Lock", "Mutex.Lock: requires the mutex not to be held by this request already (self-deadlock); marks it held",
 		func(ex *Exec, fr *Frame, st *State, pc *Term, fn *ssa.Function, args []Value, pos token.Pos) (Value, *Term) {
 			id := lockID(args[0])
+			ex.freshLockFact(pc, args[0])
 			h := st.comp(compHeld, heldSort)
 			ex.oblige(fr, "lock", "Lock of a mutex this request already holds: "+ex.srcText(pos), pos, pc, Not(Select(h, id)), ex.safetyProps)
 			ex.noteWrite(compHeld)
@@ -213,4 +235,42 @@ func init() {
 		ex.assume(pc, And(Not(Eq(p, C64(0))), ULt(p, st.next)))
 		return VPtr{T: p}, pc
 	})
+}
+
+func init() {
+	// start-up of the CGF's in-process FTP server (internal/cgf.OpenServer): files, JSON and the ftpserver
+	// packages are opaque dependencies
+	nonNilPtrErr := func(what string) externFn {
+		return func(ex *Exec, fr *Frame, st *State, pc *Term, fn *ssa.Function, args []Value, pos token.Pos) (Value, *Term) {
+			// (non-nil object, nil) or (nil, error)
+			p := Fresh(what, BV64)
+			ok := Fresh(what+".ok", BoolSort)
+			ex.assume(pc, And(ULt(p, st.next), Eq(Not(Eq(p, C64(0))), ok)))
+			errTag := Ite(ok, C64(0), Const(typeTag(types.Universe.Lookup("error").Type())+1003, 64))
+			return VTuple{[]Value{VPtr{T: p}, VIface{errTag, Ite(ok, C64(0), Fresh("err$"+what, BV64))}}}, pc
+		}
+	}
+	regExtern("os.Create", "os.Create: a non-nil file, nil error (I/O assumed to succeed)", func(ex *Exec, fr *Frame, st *State, pc *Term, fn *ssa.Function, args []Value, pos token.Pos) (Value, *Term) {
+		p := Fresh("os.file", BV64)
+		ex.assume(pc, And(Not(Eq(p, C64(0))), ULt(p, st.next)))
+		return VTuple{[]Value{VPtr{T: p}, VIface{C64(0), C64(0)}}}, pc
+	})
+	regExtern("(*encoding/json.Encoder).Encode", "json.Encoder.Encode to a file: nil error (encoding of plain configuration data and the write assumed to succeed)", func(ex *Exec, fr *Frame, st *State, pc *Term, fn *ssa.Function, args []Value, pos token.Pos) (Value, *Term) {
+		return VIface{C64(0), C64(0)}, pc
+	})
+	regPrefix("(*os.File).", "os.File methods: opaque results, no effect on modelled state", pureOpaque)
+	regExtern("encoding/json.NewEncoder", "json.NewEncoder: an opaque non-nil encoder", func(ex *Exec, fr *Frame, st *State, pc *Term, fn *ssa.Function, args []Value, pos token.Pos) (Value, *Term) {
+		p := Fresh("json.encoder", BV64)
+		ex.assume(pc, And(Not(Eq(p, C64(0))), ULt(p, st.next)))
+		return VPtr{T: p}, pc
+	})
+	regPrefix("(*encoding/json.Encoder).", "json.Encoder methods: opaque results", pureOpaque)
+	regExtern("github.com/fclairamb/ftpserver/config.NewConfig", "ftpserver config.NewConfig: a non-nil configuration and nil error, or nil and an error", nonNilPtrErr("ftp.config"))
+	regExtern("github.com/fclairamb/ftpserver/server.NewServer", "ftpserver server.NewServer: a non-nil driver and nil error, or nil and an error", nonNilPtrErr("ftp.driver"))
+	regExtern("github.com/fclairamb/ftpserverlib.NewFtpServer", "ftpserverlib.NewFtpServer: a non-nil server", func(ex *Exec, fr *Frame, st *State, pc *Term, fn *ssa.Function, args []Value, pos token.Pos) (Value, *Term) {
+		return VPtr{T: ex.alloc(st, pc)}, pc
+	})
+	externWrites["github.com/fclairamb/ftpserverlib.NewFtpServer"] = []string{"next"}
+	regPrefix("(*github.com/fclairamb/ftpserverlib.FtpServer).", "ftpserverlib.FtpServer methods: opaque results", pureOpaque)
+	regPrefix("(*github.com/fclairamb/ftpserver/server.Server).", "ftpserver server.Server methods: opaque results", pureOpaque)
 }
